@@ -221,6 +221,7 @@ def main(chk):
         '(client_entrypoint\'s disconnect), or panic (Client::drop) -- the client has been removed from the statistics; its query total grew by '
         'the number of requests executed on the servers for it and its transaction total by the number of transactions completed (a Sync the '
         'pooler answers itself may or may not be counted). (O1) PoolStats::construct_pool_lookup over registries with symbolic states. '
+        '(O3) a CancelRequest connection -- the real Client::cancel, handle in cancel mode, the drop -- makes no statistics call on the entry of the process id it names. '
         'NOT decided: consistency of the global registries under concurrent tasks, server-connection registration in bb8 connect/drop, '
         'bytes/error totals, and that totals never decrease across pool reloads.')
     chk.assumptions += [
